@@ -46,6 +46,13 @@ pub(crate) struct SnapshotTracker {
 	/// registration gets its own entry and is removed individually.
 	snapshots: Arc<SkipSet<(u64, u64)>>,
 	next_id: Arc<AtomicU64>,
+	/// The store's visible sequence number, when the tracker belongs to a store.
+	/// `capture()` reads it together with the list of live snapshots.
+	visible_seq_num: Option<Arc<AtomicU64>>,
+	/// Makes "load the visible sequence number and register it" (shared side)
+	/// atomic with respect to `capture()` (exclusive side): a snapshot is either
+	/// in the captured list or starts at or above the captured horizon.
+	gate: Arc<parking_lot::RwLock<()>>,
 }
 
 impl Clone for SnapshotTracker {
@@ -53,6 +60,8 @@ impl Clone for SnapshotTracker {
 		Self {
 			snapshots: Arc::clone(&self.snapshots),
 			next_id: Arc::clone(&self.next_id),
+			visible_seq_num: self.visible_seq_num.clone(),
+			gate: Arc::clone(&self.gate),
 		}
 	}
 }
@@ -75,7 +84,41 @@ impl SnapshotTracker {
 		Self {
 			snapshots: Arc::new(SkipSet::new()),
 			next_id: Arc::new(AtomicU64::new(0)),
+			visible_seq_num: None,
+			gate: Arc::new(parking_lot::RwLock::new(())),
 		}
+	}
+
+	/// Creates the tracker of a store whose visible sequence number is
+	/// `visible_seq_num`.
+	pub(crate) fn with_visible_seq_num(visible_seq_num: Arc<AtomicU64>) -> Self {
+		Self {
+			visible_seq_num: Some(visible_seq_num),
+			..Self::new()
+		}
+	}
+
+	/// Loads the current visible sequence number through `load` and registers
+	/// it as a snapshot, as one step with respect to `capture()`.
+	///
+	/// Loading first and registering afterwards leaves a window in which a
+	/// compaction captures the list of live snapshots without this one and
+	/// drops the versions it is entitled to.
+	pub(crate) fn register_current(&self, load: impl FnOnce() -> u64) -> u64 {
+		let _gate = self.gate.read();
+		let seq_num = load();
+		self.register(seq_num);
+		seq_num
+	}
+
+	/// What a compaction has to respect: the live snapshots (sorted), and the
+	/// visible sequence number at the time of the capture. Every snapshot that
+	/// is not in the list starts at or above that horizon, so the compaction
+	/// treats the horizon as a snapshot and keeps every version above it.
+	pub(crate) fn capture(&self) -> (Vec<u64>, Option<u64>) {
+		let _gate = self.gate.write();
+		let horizon = self.visible_seq_num.as_ref().map(|v| v.load(AtomicOrdering::Acquire));
+		(self.get_all_snapshots(), horizon)
 	}
 
 	/// Registers a new snapshot with the given sequence number.
@@ -152,12 +195,9 @@ pub(crate) struct Snapshot {
 }
 
 impl Snapshot {
-	/// Creates a new snapshot at the current sequence number
-	pub(crate) fn new(core: Arc<Core>, seq_num: u64) -> Self {
-		// Register this snapshot's sequence number so compaction knows
-		// to preserve versions visible to this snapshot
-		core.snapshot_tracker.register(seq_num);
-
+	/// Creates a new snapshot at the current visible sequence number.
+	pub(crate) fn begin(core: Arc<Core>) -> Self {
+		let seq_num = core.snapshot_tracker.register_current(|| core.seq_num());
 		Self {
 			core,
 			seq_num,
